@@ -263,8 +263,12 @@ From V Require C01Wire C01WireProofs C12RtspSession C12RtspInv.
 Theorem C03_wire_stop_is_local : forall refs kinds s i,
   nth i (C01Wire.sn_closed s) true = false ->
   let s' := C01Wire.snap_step refs kinds s (C01Wire.TStop i) in
+  let g := nth i (C01Wire.sn_of s) O in
   (forall j, j <> i -> nth j (C01Wire.sn_closed s') true = nth j (C01Wire.sn_closed s) true) /\
   C01Wire.sn_cc s' = (C01Wire.sn_cc s - C01Wire.cons_weight refs (nth i kinds 0))%Z /\
+  (forall h, h <> g -> nth h (C01Wire.sn_gens s') 0%Z = nth h (C01Wire.sn_gens s) 0%Z) /\
+  ((g < length (C01Wire.sn_gens s))%nat ->
+     nth g (C01Wire.sn_gens s') 0%Z = (nth g (C01Wire.sn_gens s) 0 - C01Wire.cons_weight refs (nth i kinds 0))%Z) /\
   (C01Wire.sn_rtsp s' + C01Wire.sn_flv s' + C01Wire.sn_wsp s' =
     C01Wire.sn_rtsp s + C01Wire.sn_flv s + C01Wire.sn_wsp s
     - C01Wire.b2z (C01Wire.is_rtsp_kind (nth i kinds 0)) - C01Wire.b2z (C01Wire.is_flv_kind (nth i kinds 0))
@@ -272,9 +276,20 @@ Theorem C03_wire_stop_is_local : forall refs kinds s i,
 Proof. exact C01WireProofs.release_stop_is_local. Qed.
 Print Assumptions C03_wire_stop_is_local.
 
+(* a new publisher registering the path (the previous stream is retired but lives on while it has
+   consumers) touches nobody who is attached; [sn_gens] keeps one consumer count per stream *)
+Theorem C03_wire_replace_touches_nobody : forall refs kinds s,
+  let s' := C01Wire.snap_step refs kinds s C01Wire.TReplace in
+  C01Wire.sn_cc s' = C01Wire.sn_cc s /\ C01Wire.sn_closed s' = C01Wire.sn_closed s /\
+  C01Wire.sn_rtsp s' = C01Wire.sn_rtsp s /\ C01Wire.sn_flv s' = C01Wire.sn_flv s /\
+  C01Wire.sn_wsp s' = C01Wire.sn_wsp s /\ C01Wire.sn_gens s' = C01Wire.sn_gens s ++ [0%Z].
+Proof. exact C01WireProofs.release_replace_touches_nobody. Qed.
+Print Assumptions C03_wire_replace_touches_nobody.
+
 Theorem C03_wire_end_is_total : forall refs kinds s,
   let s' := C01Wire.snap_step refs kinds s C01Wire.TEnd in
   C01Wire.sn_cc s' = 0%Z /\ C01Wire.sn_rtsp s' = 0%Z /\ C01Wire.sn_flv s' = 0%Z /\ C01Wire.sn_wsp s' = 0%Z /\
+  (forall g, nth g (C01Wire.sn_gens s') 0%Z = 0%Z) /\
   forall j, (j < length (C01Wire.sn_closed s))%nat -> nth j (C01Wire.sn_closed s') false = true.
 Proof. exact C01WireProofs.release_end_is_total. Qed.
 Print Assumptions C03_wire_end_is_total.
